@@ -103,7 +103,7 @@ def h19c_overdue(S):
     vtime.set_clock(clock)
     try:
         ts = S.int("timestamp", Y1970, Y2100)
-        ttl = S.int("ttl", SEC, 100 * 366 * 86400 * SEC)
+        ttl = S.int("ttl", 0, 100 * 366 * 86400 * SEC)
         has_ttl = S.flag("has_ttl")
         ttl_v = S.timedelta_us(ttl) if has_ttl else None
         S.tag("class", ["Parameters", "ArgsBucket", "ResultBucket", "Job"][which])
@@ -115,6 +115,8 @@ def h19c_overdue(S):
             obj = B.ResultBucket(data="x", started_when=1, finished_when=2, timestamp=S.datetime_us(ts), ttl=ttl_v)
         else:
             conn = Connection(InMemoryMessageBroker())
+            if has_ttl:
+                S.assume(ttl >= SEC)  # Job refuses a ttl under one second (documented precondition)
             obj = Job("job", ttl=ttl_v, _connection=conn)
             S.assume(clock.reads[0] == ts)  # Job stamps itself with the clock
         got = obj.is_overdue
@@ -149,7 +151,7 @@ HARNESSES = [
     ),
     Harness(
         name="H19c-is-overdue", scenario=h19c_overdue,
-        bounds={"timestamp, now": "any microsecond in 1970..2100", "ttl": "None or [1 s, 100 y]"},
+        bounds={"timestamp, now": "any microsecond in 1970..2100", "ttl": "None or [0, 100 y] (Job: [1 s, 100 y], it refuses less)"},
         functions=["data/_parameters.py:Parameters.is_overdue"],
         covers=["overdue-evaluated"],
     ),
